@@ -6,7 +6,7 @@ open PathClean
 mutual
 def needNode : Node → Nat
   | .dir _ kids => needKids kids
-  | .file _ _ => 0
+  | .file _ _ _ => 0
   | .link _ _ => 0
 def needKids : Kids → Nat
   | .nil => 1
@@ -17,7 +17,7 @@ end
 mutual
 def NamesOKNode : Node → Prop
   | .dir _ kids => NamesOK kids
-  | .file _ _ => True
+  | .file _ a _ => IsBytes a
   | .link _ _ => True
 def NamesOK : Kids → Prop
   | .nil => True
@@ -28,7 +28,7 @@ end
 mutual
 def MetaOKNode : Node → Prop
   | .dir m kids => ValidMeta m.mode m.mtime ∧ MetaOK kids
-  | .file m _ => ValidMeta m.mode m.mtime
+  | .file m _ _ => ValidMeta m.mode m.mtime
   | .link mt _ => ValidMeta symlinkMode mt
 def MetaOK : Kids → Prop
   | .nil => True
@@ -86,7 +86,7 @@ theorem serKids_cons (form : Bool) (S : List Str) (name : Str) (n : Node) (rest 
 
 theorem fileName_headPart {P : List Str} {name : Str} (hP : ∀ c ∈ P, NameOK c) (hn : NameOK name)
     (form : Bool) (n : Node) : fileName (headPart form ([] :: P) name n) = dp (P ++ [name]) := by
-  cases n <;> exact fileName_mkPart hP hn _ _ _ _ _
+  cases n <;> exact fileName_mkPart hP hn _ _ _ _ _ _
 
 theorem tailOK_after {P : List Str} {name : Str} (hP : ∀ c ∈ P, NameOK c) (hn : NameOK name) (form : Bool)
     (rest : Kids) (hr : NamesOK rest) (tail : List Part) (ht : TailOK P tail) :
@@ -108,11 +108,11 @@ theorem tailOK_after {P : List Str} {name : Str} (hP : ∀ c ∈ P, NameOK c) (h
 theorem metaOf_headPart_form {name : Str} (S : List Str) (n : Node) (hm : MetaOKNode n) :
     metaOf (fileInfo true (headPart true S name n)) =
       (match n with
-       | .file m _ => m
+       | .file m _ _ => m
        | .link mt _ => ⟨symlinkMode, mt⟩
        | .dir m _ => m) := by
   cases n with
-  | file m c => simp only [headPart]; rw [fileInfo_written _ _ hm]; rfl
+  | file m a c => simp only [headPart]; rw [fileInfo_written _ _ hm]; rfl
   | link mt t => simp only [headPart]; rw [fileInfo_written _ _ hm]; rfl
   | dir m kids => simp only [headPart]; rw [fileInfo_written _ _ hm.1]; rfl
 
@@ -120,9 +120,13 @@ theorem metaOf_headPart_mixed (fixed : Bool) {name : Str} (S : List Str) (n : No
     metaOf (fileInfo fixed (headPart false S name n)) = ⟨0, none⟩ := by
   cases n <;> simp [headPart, fileInfo_mixed, metaOf]
 
+theorem absPathOf_headPart_file (form : Bool) (S : List Str) (name : Str) (m : Meta) (a c : Str) (ha : IsBytes a) :
+    absPathOf (headPart form S name (.file m a c)) = a := by
+  simp only [headPart]; exact absPathOf_mkPart _ _ _ _ _ _ _ _ ha
+
 theorem headPart_ctype_body (form : Bool) (S : List Str) (name : Str) (n : Node) :
-    (headPart form S name n).ctype = (match n with | .file _ _ => .file | .link _ _ => .symlink | .dir _ _ => .dir) ∧
-    (headPart form S name n).body = (match n with | .file _ c => c | .link _ t => t | .dir _ _ => []) := by
+    (headPart form S name n).ctype = (match n with | .file _ _ _ => .file | .link _ _ => .symlink | .dir _ _ => .dir) ∧
+    (headPart form S name n).body = (match n with | .file _ _ c => c | .link _ t => t | .dir _ _ => []) := by
   cases n <;> simp [headPart, mkPart]
 
 /-- **Walking a serialized directory gives its entries back** (form mode, fixed reader). -/
@@ -134,7 +138,7 @@ theorem walk_serKids_form : (ks : Kids) → (P : List Str) → (cur : Str) → (
     cases fuel with
     | zero => simp [needKids] at hf
     | succ f => simp only [serKids, List.nil_append]; exact walk_stop _ f cur tail ht
-  | .cons name (.file m c) rest, P, cur, tail, fuel, hP, hcur, hn, hm, hf, ht => by
+  | .cons name (.file m a c) rest, P, cur, tail, fuel, hP, hcur, hn, hm, hf, ht => by
     have hPn : ∀ c ∈ P, Normal c = true := fun c hc => (hP c hc).1
     cases fuel with
     | zero => simp [needKids] at hf
@@ -146,9 +150,10 @@ theorem walk_serKids_form : (ks : Kids) → (P : List Str) → (cur : Str) → (
     have hfr : needKids rest ≤ f := by simp [needKids] at hf; omega
     rw [serKids_cons, List.cons_append]
     rw [walk, next_head hPn hcur hname.1 _ (fileName_headPart hP hname true _)]
-    have hcb := headPart_ctype_body true ([] :: P) name (.file m c)
-    have hmeta := metaOf_headPart_form (name := name) ([] :: P) (.file m c) hmn
-    simp only [hcb.1, hcb.2, hmeta, List.nil_append]
+    have hcb := headPart_ctype_body true ([] :: P) name (.file m a c)
+    have hmeta := metaOf_headPart_form (name := name) ([] :: P) (.file m a c) hmn
+    have habs := absPathOf_headPart_file true ([] :: P) name m a c hnn
+    simp only [hcb.1, hcb.2, hmeta, habs, List.nil_append]
     rw [walk_serKids_form rest P name tail f hP (Or.inr hname.1) hnr hmr hfr ht]
   | .cons name (.link mt t) rest, P, cur, tail, fuel, hP, hcur, hn, hm, hf, ht => by
     have hPn : ∀ c ∈ P, Normal c = true := fun c hc => (hP c hc).1
@@ -206,7 +211,7 @@ theorem walk_serKids_mixed (fixed : Bool) : (ks : Kids) → (P : List Str) → (
     cases fuel with
     | zero => simp [needKids] at hf
     | succ f => simp only [serKids, List.nil_append, stripKids]; exact walk_stop _ f cur tail ht
-  | .cons name (.file m c) rest, P, cur, tail, fuel, hP, hcur, hn, hf, ht => by
+  | .cons name (.file m a c) rest, P, cur, tail, fuel, hP, hcur, hn, hf, ht => by
     have hPn : ∀ c ∈ P, Normal c = true := fun c hc => (hP c hc).1
     cases fuel with
     | zero => simp [needKids] at hf
@@ -216,9 +221,10 @@ theorem walk_serKids_mixed (fixed : Bool) : (ks : Kids) → (P : List Str) → (
     have hfr : needKids rest ≤ f := by simp [needKids] at hf; omega
     rw [serKids_cons, List.cons_append]
     rw [walk, next_head hPn hcur hname.1 _ (fileName_headPart hP hname false _)]
-    have hcb := headPart_ctype_body false ([] :: P) name (.file m c)
-    have hmeta := metaOf_headPart_mixed fixed (name := name) ([] :: P) (.file m c)
-    simp only [hcb.1, hcb.2, hmeta, List.nil_append, stripKids, stripNode]
+    have hcb := headPart_ctype_body false ([] :: P) name (.file m a c)
+    have hmeta := metaOf_headPart_mixed fixed (name := name) ([] :: P) (.file m a c)
+    have habs := absPathOf_headPart_file false ([] :: P) name m a c hnn
+    simp only [hcb.1, hcb.2, hmeta, habs, List.nil_append, stripKids, stripNode]
     rw [walk_serKids_mixed fixed rest P name tail f hP (Or.inr hname.1) hnr hfr ht]
   | .cons name (.link mt t) rest, P, cur, tail, fuel, hP, hcur, hn, hf, ht => by
     have hPn : ∀ c ∈ P, Normal c = true := fun c hc => (hP c hc).1
@@ -267,7 +273,7 @@ decreasing_by all_goals simp_wf <;> omega
 theorem needKids_le (form : Bool) (S : List Str) (ks : Kids) : needKids ks ≤ (serKids form S ks).length + 1 := by
   match ks with
   | .nil => simp [needKids]
-  | .cons name (.file m c) rest =>
+  | .cons name (.file m a c) rest =>
     have := needKids_le form S rest
     simp [needKids, needNode, serKids, serNode]; omega
   | .cons name (.link mt t) rest =>
